@@ -12,20 +12,6 @@ void *nondet_vptr(void);
 static inline void xv_tc_havoc(void)
 {
     xv_fd_havoc();
-    xv_regs = nondet_int(); xv_timers = nondet_int(); xv_tmgrs = nondet_int();
-    xv_trk = nondet_vptr(); xv_ai = nondet_int();
-    xv_att_begun = nondet_uint(); xv_att_failed = nondet_uint(); xv_att_errno = nondet_int(); xv_att_conn = nondet_uint();
-    xv_att_conn_rc = nondet_int(); xv_att_conn_errno = nondet_int(); xv_att_conn_fd = nondet_int(); xv_att_conn_src = nondet_vptr();
-    xv_fail_n = nondet_uint(); xv_fail_errno = nondet_int(); xv_conn_n = nondet_uint();
-    xv_conn_idx = nondet_int(); xv_conn_fd = nondet_int(); xv_conn_rc = nondet_int(); xv_conn_errno = nondet_int();
-    xv_disc_n = nondet_uint(); xv_disc_fd = nondet_int();
-    xv_pre_eff_fd = nondet_int(); xv_pre_bind_fd = nondet_int();
-    xv_unprepared = nondet_uint(); xv_unbound = nondet_uint(); xv_wrong_addr = nondet_uint(); xv_unregistered = nondet_uint();
-    xv_eff_n = nondet_uint(); xv_eff_fd = nondet_int(); xv_eff_rc = nondet_int(); xv_eff_opts = nondet_vptr();
-    xv_sa_src = nondet_vptr(); xv_sa_dst = nondet_vptr(); xv_sa_port = (uint16_t)(nondet_uint() & 0xffff); xv_sa_scope = nondet_long();
-    xv_reg_fd = nondet_int(); xv_reg_event = nondet_int(); xv_reg_id = nondet_int(); xv_del_id = nondet_int();
-    xv_sched_id = nondet_long(); xv_sched_timeout = nondet_double(); xv_sched_mgr = nondet_vptr();
-    xv_expired_ret = nondet_bool(); xv_expired_n = nondet_uint();
-    xv_est_n = nondet_uint(); xv_est_fd = nondet_int(); xv_est_rc = nondet_int(); xv_est_errno = nondet_int();
+    __CPROVER_havoc_object(&xv_tc); __CPROVER_havoc_object(&xv_trk); __CPROVER_havoc_object(&xv_ai); __CPROVER_havoc_object(&xv_tmgrs);
 }
 #endif
